@@ -31,17 +31,23 @@ Record pobj := {
   ogone   : bool;            (* _gone *)
   oreused : bool;            (* _pid_reused *)
   octime  : option Z;        (* _create_time (x 100) *)
-  ohash   : option (Z * option Z)   (* _hash: None or the hashed identity *)
+  ohash   : option (Z * option Z);  (* _hash: None or the hashed identity *)
+  oshot   : nat;             (* depth of active "with p.oneshot():" blocks; > 0 = the memoize caches exist *)
+  ocppid  : option Z;        (* Process._cache[ppid]: value memoized by Process.ppid() inside oneshot *)
+  ocstat  : option (Z * Z)   (* _proc._cache[_parse_stat_file]: (starttime, ppid) of the memoized stat record *)
 }.
 
 Definition with_gone (b : bool) (x : pobj) : pobj :=
-  {| opid := opid x; ostart := ostart x; ogone := b; oreused := oreused x; octime := octime x; ohash := ohash x |}.
+  {| opid := opid x; ostart := ostart x; ogone := b; oreused := oreused x; octime := octime x; ohash := ohash x; oshot := oshot x; ocppid := ocppid x; ocstat := ocstat x |}.
 Definition with_reused (b : bool) (x : pobj) : pobj :=
-  {| opid := opid x; ostart := ostart x; ogone := ogone x; oreused := b; octime := octime x; ohash := ohash x |}.
+  {| opid := opid x; ostart := ostart x; ogone := ogone x; oreused := b; octime := octime x; ohash := ohash x; oshot := oshot x; ocppid := ocppid x; ocstat := ocstat x |}.
 Definition with_ctime (c : option Z) (x : pobj) : pobj :=
-  {| opid := opid x; ostart := ostart x; ogone := ogone x; oreused := oreused x; octime := c; ohash := ohash x |}.
+  {| opid := opid x; ostart := ostart x; ogone := ogone x; oreused := oreused x; octime := c; ohash := ohash x; oshot := oshot x; ocppid := ocppid x; ocstat := ocstat x |}.
 Definition with_hash (h : option (Z * option Z)) (x : pobj) : pobj :=
-  {| opid := opid x; ostart := ostart x; ogone := ogone x; oreused := oreused x; octime := octime x; ohash := h |}.
+  {| opid := opid x; ostart := ostart x; ogone := ogone x; oreused := oreused x; octime := octime x; ohash := h; oshot := oshot x; ocppid := ocppid x; ocstat := ocstat x |}.
+(* oneshot state: depth and the two memoize caches *)
+Definition with_shot (n : nat) (p : option Z) (t : option (Z * Z)) (x : pobj) : pobj :=
+  {| opid := opid x; ostart := ostart x; ogone := ogone x; oreused := oreused x; octime := octime x; ohash := ohash x; oshot := n; ocppid := p; ocstat := t |}.
 
 Definition ident (x : pobj) : Z * option Z := (opid x, ostart x).
 Definition opt_eqb (a b : option Z) : bool :=
@@ -88,6 +94,10 @@ Inductive setter :=
 
 Inductive call :=
 | New (pid : Z)                 (* psutil.Process(pid) *)
+| NewPopen (pid : Z)            (* psutil.Popen(...) whose child has PID pid: _init(pid, _ignore_nsp=True) *)
+| OneshotEnter (o : nat)        (* entering "with o.oneshot():" *)
+| OneshotExit (o : nat)         (* leaving the innermost oneshot block of o *)
+| AsDict (o : nat)              (* o.as_dict(attrs=["ppid"])["ppid"] *)
 | IsRunning (o : nat)
 | EqC (a b : nat)               (* a == b *)
 | HashEq (a b : nat)            (* hash(a) == hash(b), and each hash equal to its first value *)
@@ -147,7 +157,8 @@ Definition new_obj (pid : Z) : outcome pobj :=
        | None => Exc NoSuchProcess
        | Some (st, _, _) =>
          Val {| opid := pid; ostart := if kv_ctime_ok K pid then Some st else None;
-                ogone := false; oreused := false; octime := None; ohash := None |}
+                ogone := false; oreused := false; octime := None; ohash := None;
+                oshot := O; ocppid := None; ocstat := None |}
        end.
 
 (* is_running(): result, new object state, PIDs added to _pids_reused *)
@@ -221,16 +232,48 @@ Definition do_setter (x : pobj) (s : setter) : pobj * outcome res * list Z * lis
   | OutOfModel => (x1, OutOfModel, add, [])
   end.
 
-(* Process.ppid() *)
+(* _proc._parse_stat_file(): memoized while a oneshot block is active (exceptions are not memoized) *)
+Definition parse_stat (x : pobj) : pobj * option (Z * Z) :=
+  match oshot x, ocstat x with
+  | S _, Some c => (x, Some c)
+  | _, _ =>
+    match kv_stat K (opid x) with
+    | Some (st, pp, _) =>
+      (match oshot x with S _ => with_shot (oshot x) (ocppid x) (Some (st, pp)) x | O => x end, Some (st, pp))
+    | None => (x, None)
+    end
+  end.
+
+(* Process.ppid(): @memoize_when_activated around the whole method, _raise_if_pid_reused() included *)
 Definition do_ppid (x : pobj) : pobj * outcome res * list Z :=
-  let '(x1, r, add) := raise_if_pid_reused x in
-  match r with
-  | Val _ => match kv_stat K (opid x1) with
-             | Some (_, pp, _) => (x1, Val (RInt pp), add)
-             | None => (x1, Exc (esrch_exn (opid x1)), add)
-             end
-  | Exc e => (x1, Exc e, add)
-  | OutOfModel => (x1, OutOfModel, add)
+  match oshot x, ocppid x with
+  | S _, Some v => (x, Val (RInt v), [])
+  | _, _ =>
+    let '(x1, r, add) := raise_if_pid_reused x in
+    match r with
+    | Val _ =>
+      let '(x2, st) := parse_stat x1 in
+      match st with
+      | Some (_, pp) =>
+        (match oshot x2 with S _ => with_shot (oshot x2) (Some pp) (ocstat x2) x2 | O => x2 end, Val (RInt pp), add)
+      | None => (x2, Exc (esrch_exn (opid x2)), add)
+      end
+    | Exc e => (x1, Exc e, add)
+    | OutOfModel => (x1, OutOfModel, add)
+    end
+  end.
+
+(* with p.oneshot(): nested blocks are no-ops; the outermost one creates and finally deletes the caches *)
+Definition oneshot_enter (x : pobj) : pobj :=
+  match oshot x with
+  | O => with_shot 1 None None x
+  | S n => with_shot (S (S n)) (ocppid x) (ocstat x) x
+  end.
+Definition oneshot_exit (x : pobj) : option pobj :=
+  match oshot x with
+  | O => None
+  | S O => Some (with_shot O None None x)
+  | S (S n) => Some (with_shot (S n) (ocppid x) (ocstat x) x)
   end.
 
 (* boot_time(): reads btime and stores it in BOOT_TIME *)
@@ -241,15 +284,16 @@ Definition do_create_time (m : mstate) (x : pobj) : mstate * pobj * outcome res 
   match octime x with
   | Some c => (m, x, Val (RCenti c))
   | None =>
-    match kv_stat K (opid x) with
-    | None => (m, x, Exc (esrch_exn (opid x)))
-    | Some (st, _, _) =>
+    let '(x1, ps) := parse_stat x in
+    match ps with
+    | None => (m, x1, Exc (esrch_exn (opid x1)))
+    | Some (st, _) =>
       let '(m1, bt) := match bootc m with
                        | Some b => if b =? 0 then do_boot_time m else (m, b)
                        | None => do_boot_time m
                        end in
       let c := st + CLOCK_TICKS * bt in
-      (m1, with_ctime (Some c) x, Val (RCenti c))
+      (m1, with_ctime (Some c) x1, Val (RCenti c))
     end
   end.
 
@@ -303,6 +347,41 @@ Definition mcall (m : mstate) (c : call) : mstate * outcome res * list sysc :=
     | Val y => (with_objs (objs m ++ [y]) m, Val (RObj (length (objs m))), [])
     | Exc e => (m, Exc e, [])
     | OutOfModel => (m, OutOfModel, [])
+    end
+  | NewPopen pid =>
+    (* a child that is gone before _init() reads it leaves an object without identity: outside the model *)
+    if kexists pid then
+      match new_obj pid with
+      | Val y => (with_objs (objs m ++ [y]) m, Val (RObj (length (objs m))), [])
+      | Exc e => (m, Exc e, [])
+      | OutOfModel => (m, OutOfModel, [])
+      end
+    else (m, OutOfModel, [])
+  | OneshotEnter o =>
+    match nth_error (objs m) o with
+    | None => (m, OutOfModel, [])
+    | Some x => (with_objs (upd_nth o (oneshot_enter x) (objs m)) m, Val RNone, [])
+    end
+  | OneshotExit o =>
+    match nth_error (objs m) o with
+    | None => (m, OutOfModel, [])
+    | Some x =>
+      match oneshot_exit x with
+      | Some x1 => (with_objs (upd_nth o x1 (objs m)) m, Val RNone, [])
+      | None => (m, OutOfModel, [])
+      end
+    end
+  | AsDict o =>
+    match nth_error (objs m) o with
+    | None => (m, OutOfModel, [])
+    | Some x =>
+      let '(x1, r, add) := do_ppid (oneshot_enter x) in
+      match oneshot_exit x1 with
+      | Some x2 =>
+        (with_reusedset (reused m ++ add) (with_objs (upd_nth o x2 (objs m)) m),
+         match r with Exc ZombieProcess | Exc AccessDenied => Val RNone (* ad_value *) | _ => r end, [])
+      | None => (m, OutOfModel, [])
+      end
     end
   | IsRunning o =>
     match nth_error (objs m) o with
